@@ -30,6 +30,20 @@ def translate(repo):
     items.append(typed("PipeStream_read_tolerates_wouldblock", "bool", coq_bool(tolerant)))
     items.append(typed("retry_errnos_are_again_wouldblock", "bool",
                        coq_bool(ast.unparse(find_assign(tree, "retry_errnos")) == "(errno.EAGAIN, errno.EWOULDBLOCK)")))
+    # what every stream inherits: poll (used by serve / wait on all transports) and the closed tests
+    base = find_class(tree, "Stream")
+    for fn in ("poll", "read", "write", "close"):
+        items.append(shape("Stream.%s" % fn, func_shape(find_func(base, fn))))
+    for cname in ("SocketStream", "PipeStream"):
+        for fn in ("closed", "fileno"):
+            try:
+                items.append(shape("%s.%s" % (cname, fn), func_shape(find_func(find_class(tree, cname), fn))))
+            except Unrecognised:
+                pass
+    ctree = parse(repo, "rpyc/lib/compat.py")
+    for fn in ("get_exc_errno",):
+        items.append(shape("compat.%s" % fn, func_shape(find_func(ctree, fn))))
+    items.append(shape("compat.poll_classes", "\n".join(ast.unparse(n) for n in ctree.body if isinstance(n, ast.ClassDef) and "poll" in n.name.lower())))
     items.append(shape("retry_errnos", ast.unparse(find_assign(tree, "retry_errnos"))))
     items.append(shape("ClosedFile", func_shape(find_class(tree, "ClosedFile")) if False else ast.unparse(find_class(tree, "ClosedFile"))))
     return items
